@@ -43,6 +43,9 @@ func propC06(c *Ctx, r *Report) {
 	r.Clauses = append(r.Clauses, "constant short-circuit (E43): a condition over the logical operator and a constant left operand that guards an early return (the right operand is never lowered) holds only for false && X and true || X - evaluated over the four (operator, value) assignments")
 	c.runShortCircuitConst(r, "shortcircuit.const", inPkgs("wgsl", "ir"))
 	r.floor("shortcircuit.const", 1)
+	r.Clauses = append(r.Clauses, "step at the edge (E43): the constant folder's closure for step(edge, x) answers 1.0 when its two parameters are equal")
+	c.runFoldStep(r, "fold.step", inPkgs("wgsl", "ir"))
+	r.floor("fold.step", 1)
 	r.Clauses = append(r.Clauses, "numeric literal conversion (E10): no strconv conversion of a WGSL numeric literal in the lowerer discards its error (a literal that is not representable must be an error, not a saturated value)")
 	c.runErrflowFiltered(r, inPkgs("wgsl/internal/lower"), nil, func(callee string) bool { return strings.HasPrefix(callee, "strconv.") }, false)
 }
